@@ -1606,7 +1606,7 @@ package sod
 
 //@ func uuidExt
 //@ serves C11 C18 C19
-//@ ensures [C18 uuidExt.prefix] uuid == prefixOf(name)
+//@ ensures [C11 C18 C19 uuidExt.prefix] uuid == prefixOf(name)
 //@ modifies nothing
 //@ allocates Elem[string], Elem[interface{}]
 
